@@ -42,6 +42,9 @@ void TREE2(DString *out, const char *source, token *t, scratch_pad *scratch) {}
 #ifdef TREE3
 void TREE3(DString *out, const char *source, token *t, scratch_pad *scratch) {}
 #endif
+#ifdef TREE4
+void TREE4(DString *out, const char *source, token *t, scratch_pad *scratch) {}
+#endif
 int main(void) {
 	IN_LOAD();
 	ASSUME(IN.ti < N_ALL_TYPES);
